@@ -266,6 +266,9 @@ def gen_tie(pid: str):
             return out
         out["untranslated"] = errors
         out["units"] = text.count("\nDefinition ")
+        if re.search(r"(?<![A-Za-z_0-9'])(Admitted|admit|Axiom|Axioms|Parameter|Parameters|Conjecture|Variable|Hypothesis|native_compute|Unset)(?![A-Za-z_0-9'])", re.sub(r"\(\*.*?\*\)", "", text, flags=re.S)):
+            out.update(ok=False, failed="generated GSrc.v contains forbidden vernacular", log=text[:2000])
+            return out
         with open(os.path.join(d, "GSrc.v"), "w") as f:
             f.write(text)
         flags = f"-Q {COQ} FV -Q . FVG -w {COQ_W}"
